@@ -89,6 +89,8 @@ type ddEngine struct {
 	onCall func(s *ddState, c *ssa.Call)
 	// stopInstr: a path ends (as a stop leaf carrying its state) right before the first instruction for which it is true
 	stopInstr func(in ssa.Instruction) bool
+	// initMem: the content of local variables at the start (runFrom in the middle of a function)
+	initMem map[*ssa.Alloc]aval
 }
 
 // keyOf: the atom key of condition v in state s.
@@ -219,6 +221,8 @@ type ddState struct {
 	mem map[*ssa.Alloc]aval
 	// memElem: the same for an element of a local array or a field of a local struct addressed with a known index
 	memElem map[elemKey]aval
+	// log: notes an onCall hook leaves on this path (copied at branches)
+	log []string
 }
 
 type elemKey struct {
@@ -238,6 +242,7 @@ func (s *ddState) clone() *ddState {
 		n.atomV[k] = v
 	}
 	n.path = append([]*ssa.BasicBlock{}, s.path...)
+	n.log = append([]string{}, s.log...)
 	if s.mem != nil {
 		n.mem = map[*ssa.Alloc]aval{}
 		for k, v := range s.mem {
@@ -586,6 +591,12 @@ func (e *ddEngine) runFrom(start, prev *ssa.BasicBlock) {
 		e.maxLeafs = 64
 	}
 	st := &ddState{vals: map[ssa.Value]aval{}, atoms: map[string]bool{}, atomV: map[string]ssa.Value{}}
+	if e.initMem != nil {
+		st.mem = map[*ssa.Alloc]aval{}
+		for k, v := range e.initMem {
+			st.mem[k] = v
+		}
+	}
 	e.walk(st, start, prev, 0)
 }
 
